@@ -153,6 +153,7 @@ package diam
 //@   requires m != nil && (m.dictionary != nil ==> pwf(m.dictionary))
 //@   assume default_dictionary_initialised: dict.Default != nil && pwf(dict.Default)
 //@   ensures nonnil: d != nil && pwf(d)
+//@   ensures which: d == (m.dictionary != nil ? m.dictionary : dict.Default)
 //@ end
 //@
 //@ # ======================= serialisation (C02) ============================
@@ -366,4 +367,82 @@ package diam
 //@   modifies m.AVP, m.Header.MessageLength
 //@   ensures [C02] length_recomputed: err == nil ==> m.Header.MessageLength == uint32(20 + sumlen(m.AVP, len(m.AVP)))
 //@   ensures [C02] unchanged_on_error: err != nil ==> m.Header.MessageLength == old(m.Header.MessageLength) && sameslice(m.AVP, old(m.AVP))
+//@ end
+//@
+//@ # ======================= server.go: dispatch (C09) ========================
+//@ # the three lookup keys of a message
+//@ spec midx(m *Message) CommandIndex = mk(CommandIndex, m.Header.ApplicationID, m.Header.CommandCode, m.Header.CommandFlags & 0x80 == 0x80)
+//@ spec allidx() CommandIndex = mk(CommandIndex, 4294967295, 4294967295, false)
+//@ spec muxwf(mux *ServeMux) bool = mux != nil && mux.m != nil && mux.idxMap != nil && !closed(mux.e) &&
+//@      (forall k CommandIndex :: has(mux.idxMap, k) ==> mux.idxMap[k].h != nil) && (forall s string :: has(mux.m, s) ==> mux.m[s].h != nil)
+//@
+//@ func (*ServeMux).Error(mux, err)
+//@   property C09 C15
+//@   requires mux != nil && !closed(mux.e)
+//@   modifies reports()
+//@   ghostset reports() = old(reports()) + 1
+//@   ensures [C09] offered: reports() == old(reports()) + 1
+//@ end
+//@
+//@ func (*ServeMux).serveIdx(mux, cmd, c, m)
+//@   property C09
+//@   requires muxwf(mux) && ALL_CMD_INDEX == allidx()
+//@   ensures [C09] exact: old(has(mux.idxMap, cmd)) ==> handlercalls() == old(handlercalls()) + 1 && lasthandler() == old(mux.idxMap[cmd].h) && lastconn() == c && lastmsg() == m
+//@   ensures [C09] catch_all: !old(has(mux.idxMap, cmd)) && old(has(mux.idxMap, allidx())) ==> handlercalls() == old(handlercalls()) + 1 && lasthandler() == old(mux.idxMap[allidx()].h) && lastconn() == c && lastmsg() == m
+//@   ensures [C09] none: !old(has(mux.idxMap, cmd)) && !old(has(mux.idxMap, allidx())) ==> handlercalls() == old(handlercalls()) && reports() == old(reports()) + 1
+//@ end
+//@
+//@ func (*ServeMux).serve(mux, cmd, c, m)
+//@   property C09
+//@   requires muxwf(mux) && ALL_CMD_INDEX == allidx()
+//@   ensures [C09] by_name: old(has(mux.m, cmd)) ==> handlercalls() == old(handlercalls()) + 1 && lasthandler() == old(mux.m[cmd].h) && lastconn() == c && lastmsg() == m
+//@   ensures [C09] catch_all: !old(has(mux.m, cmd)) && old(has(mux.idxMap, allidx())) ==> handlercalls() == old(handlercalls()) + 1 && lasthandler() == old(mux.idxMap[allidx()].h) && lastconn() == c && lastmsg() == m
+//@   ensures [C09] none: !old(has(mux.m, cmd)) && !old(has(mux.idxMap, allidx())) ==> handlercalls() == old(handlercalls()) && reports() == old(reports()) + 1
+//@ end
+//@
+//@ # the dictionary a message is interpreted with, and what FindCommand finds in it (exact application, else base)
+//@ spec mdict(m *Message) *dict.Parser = m.dictionary != nil ? m.dictionary : dict.Default
+//@ spec cmdknown(d *dict.Parser, app uint32, code uint32) bool = has(d.command, mk(dict.codeIdx, app, code, 4294967295)) || has(d.command, mk(dict.codeIdx, 0, code, 4294967295))
+//@ spec thecmd(d *dict.Parser, app uint32, code uint32) *dict.Command = has(d.command, mk(dict.codeIdx, app, code, 4294967295)) ? d.command[mk(dict.codeIdx, app, code, 4294967295)] : d.command[mk(dict.codeIdx, 0, code, 4294967295)]
+//@ spec mname(m *Message) string = thecmd(mdict(m), m.Header.ApplicationID, m.Header.CommandCode).Short + (m.Header.CommandFlags & 0x80 == 0x80 ? "R" : "A")
+//@ spec mknown(m *Message) bool = cmdknown(mdict(m), m.Header.ApplicationID, m.Header.CommandCode)
+//@ spec called(h Handler, c Conn, m *Message, n int) bool = handlercalls() == n + 1 && lasthandler() == h && lastconn() == c && lastmsg() == m
+//@
+//@ func (*ServeMux).ServeDIAM(mux, c, m)
+//@   property C08 C09
+//@   requires muxwf(mux) && ALL_CMD_INDEX == allidx() && m != nil && m.Header != nil && (m.dictionary != nil ==> pwf(m.dictionary))
+//@   assume default_dictionary_initialised: dict.Default != nil && pwf(dict.Default)
+//@   ensures [C09] exact_index: old(mknown(m) && has(mux.idxMap, midx(m))) ==> called(old(mux.idxMap[midx(m)].h), c, m, old(handlercalls()))
+//@   ensures [C09] then_short_name: old(mknown(m) && !has(mux.idxMap, midx(m)) && has(mux.m, mname(m))) ==> called(old(mux.m[mname(m)].h), c, m, old(handlercalls()))
+//@   ensures [C09] then_catch_all: old(mknown(m) && !has(mux.idxMap, midx(m)) && !has(mux.m, mname(m)) && has(mux.idxMap, allidx())) ==> called(old(mux.idxMap[allidx()].h), c, m, old(handlercalls()))
+//@   ensures [C09] unknown_command_catch_all: old(!mknown(m) && has(mux.idxMap, allidx())) ==> called(old(mux.idxMap[allidx()].h), c, m, old(handlercalls()))
+//@   ensures [C09] nothing_registered: old((!mknown(m) || (!has(mux.idxMap, midx(m)) && !has(mux.m, mname(m)))) && !has(mux.idxMap, allidx())) ==>
+//@           handlercalls() == old(handlercalls()) && reports() == old(reports()) + 1
+//@ end
+//@
+//@ func (*ServeMux).HandleIdx(mux, cmd, handler)
+//@   property C09 C10
+//@   requires mux != nil && mux.idxMap != nil && handler != nil
+//@   modifies mapof(mux.idxMap), wlocked(&mux.mu)
+//@   ensures [C09] registered: has(mux.idxMap, cmd) && mux.idxMap[cmd].h == handler
+//@   ensures [C09] others_kept: forall k CommandIndex :: k != cmd ==> (has(mux.idxMap, k) <==> old(has(mux.idxMap, k))) && mux.idxMap[k].h == old(mux.idxMap[k].h)
+//@ end
+//@
+//@ func (*ServeMux).Handle(mux, shortCmd, handler)
+//@   property C09 C10
+//@   requires mux != nil && mux.idxMap != nil && mux.m != nil && handler != nil && ALL_CMD_INDEX == allidx()
+//@   modifies mapof(mux.idxMap), mapof(mux.m), wlocked(&mux.mu)
+//@   ensures [C09] all_is_catch_all: shortCmd == "ALL" ==> has(mux.idxMap, allidx()) && mux.idxMap[allidx()].h == handler &&
+//@           (forall k CommandIndex :: k != allidx() ==> (has(mux.idxMap, k) <==> old(has(mux.idxMap, k))) && mux.idxMap[k].h == old(mux.idxMap[k].h)) &&
+//@           (forall s string :: (has(mux.m, s) <==> old(has(mux.m, s))) && mux.m[s].h == old(mux.m[s].h))
+//@   ensures [C09] by_name: shortCmd != "ALL" ==> has(mux.m, shortCmd) && mux.m[shortCmd].h == handler &&
+//@           (forall s string :: s != shortCmd ==> (has(mux.m, s) <==> old(has(mux.m, s))) && mux.m[s].h == old(mux.m[s].h)) &&
+//@           (forall k CommandIndex :: (has(mux.idxMap, k) <==> old(has(mux.idxMap, k))) && mux.idxMap[k].h == old(mux.idxMap[k].h))
+//@ end
+//@
+//@ func NewServeMux() (mux)
+//@   property C09
+//@   modifies
+//@   ensures [C09] empty: mux != nil && fresh(mux) && mux.m != nil && mux.idxMap != nil && !closed(mux.e) &&
+//@           (forall k CommandIndex :: !has(mux.idxMap, k)) && (forall s string :: !has(mux.m, s))
 //@ end
